@@ -438,6 +438,43 @@ impl Entry<EntryInit, EntryNew> {
         }
     }
 
+    /// Runtime-verification only: an in-memory invalid entry that never reaches a database.
+    #[cfg(feature = "verif-hooks")]
+    pub fn verif_into_invalid_new(mut self) -> Entry<EntryInvalid, EntryNew> {
+        let cid = Cid::new(Uuid::nil(), Duration::ZERO);
+        let _ = self
+            .attrs
+            .insert(Attribute::LastModifiedCid, vs_cid![cid.clone()]);
+        let _ = self
+            .attrs
+            .insert(Attribute::CreatedAtCid, vs_cid![cid.clone()]);
+        let ecstate = EntryChangeState::new_without_schema(&cid, &self.attrs);
+        Entry {
+            valid: EntryInvalid { cid, ecstate },
+            state: EntryNew,
+            attrs: self.attrs,
+        }
+    }
+
+    /// Runtime-verification only: an in-memory sealed entry that never reaches a database.
+    #[cfg(feature = "verif-hooks")]
+    pub fn verif_into_sealed_committed(mut self, id: u64) -> Entry<EntrySealed, EntryCommitted> {
+        let cid = Cid::new(Uuid::nil(), Duration::ZERO);
+        let _ = self
+            .attrs
+            .insert(Attribute::LastModifiedCid, vs_cid![cid.clone()]);
+        let _ = self
+            .attrs
+            .insert(Attribute::CreatedAtCid, vs_cid![cid.clone()]);
+        let ecstate = EntryChangeState::new_without_schema(&cid, &self.attrs);
+        let uuid = self.get_uuid().unwrap_or_else(Uuid::new_v4);
+        Entry {
+            valid: EntrySealed { uuid, ecstate },
+            state: EntryCommitted { id },
+            attrs: self.attrs,
+        }
+    }
+
     /// ⚠️  This function bypasses the db commit, assigns fake db ids, and invalid replication metadata.
     /// The entry it creates can never be committed safely or replicated.
     /// This is a TEST ONLY method and will never be exposed in production.
